@@ -255,13 +255,39 @@ def run(ctx):
     wrappers = [m for m in args_cls.methods.values() if m.name.startswith("getAs")]
     if len(wrappers) < 11:
         ctx.broken("Args.getAs*", f"only {len(wrappers)} conversion wrappers found")
-    for m in wrappers:
-        ok = False
+    def conversions_restamped(m, depth=0):
+        """(number of conversion calls, all of them inside `try: .. except CklRuntimeError as e: e.pos = self.pos;
+        raise`), following `self.helper(..)` delegation inside class Args"""
+        guarded = set()
+        for t in ast.walk(m.node):
+            if not isinstance(t, ast.Try):
+                continue
+            for h in t.handlers:
+                if h.type is not None and norm(h.type) == "CklRuntimeError" and h.name and \
+                        [norm(x) for x in h.body] == [f"{h.name}.pos = self.pos", "raise"]:
+                    for st_ in t.body:
+                        guarded |= {id(x) for x in ast.walk(st_)}
+        n_conv, all_ok = 0, True
         for n in ast.walk(m.node):
-            if isinstance(n, ast.ExceptHandler) and n.type is not None and norm(n.type) == "CklRuntimeError" and n.name:
-                body = [norm(x) for x in n.body]
-                if body == [f"{n.name}.pos = self.pos", "raise"]:
-                    ok = True
+            if not isinstance(n, ast.Call):
+                continue
+            fn = n.func
+            is_conv = isinstance(fn, ast.Attribute) and fn.attr.startswith("as") and fn.attr[2:3].isupper() and not n.args
+            is_conv = is_conv or (isinstance(fn, ast.Call) and norm(fn.func) == "getattr")
+            if is_conv:
+                n_conv += 1
+                all_ok = all_ok and id(n) in guarded
+            elif isinstance(fn, ast.Attribute) and norm(fn.value) == "self" and depth < 2 \
+                    and fn.attr in args_cls.methods and fn.attr not in ("get", "hasArg", "isNull"):
+                k, ok2 = conversions_restamped(args_cls.methods[fn.attr], depth + 1)
+                if k:
+                    n_conv += k
+                    all_ok = all_ok and (ok2 or id(n) in guarded)
+        return n_conv, all_ok
+
+    for m in wrappers:
+        k, ok = conversions_restamped(m)
+        ok = ok and k >= 1
         ctx.check("C20.pos", m, None, ok,
                   "conversion wrapper does not re-stamp the position-less conversion error with the call position",
                   expr=m.qual, site=f"{m.qual}: except CklRuntimeError as e: e.pos = self.pos; raise")
